@@ -25,7 +25,8 @@ def extract(netlist):
             if lib.name == "hdi_primitives":
                 prims[d.name] = {"declared": not d.get("VERILOG.primitive", False),
                                  "ports": [(p.name, p.direction.name, len(p.pins)) for p in d.ports],
-                                 "widths": dict((p.name, len(p.pins)) for p in d.ports)}
+                                 "widths": dict((p.name, len(p.pins)) for p in d.ports),
+                                 "attrs": dict(d.get("VERILOG.InlineConstraints", {}) or {})}
                 continue
             conn = {}
             for c in d.cables:
@@ -186,6 +187,9 @@ class C06(Prop):
                 before = [p for p in self.design["prims"] if p["name"] == name][0]["pos"] == "before"
                 if sorted(gp["ports"]) != sorted(wp["ports"]) or (before and gp["ports"] != wp["ports"]):
                     raise Violation("C06.primitive", "declared_ports", "%s: %r vs %r" % (name, gp["ports"], wp["ports"]))
+                if gp["attrs"] != wp.get("attrs", {}):
+                    raise Violation("C06.attrs", "primitive", "`celldefine module %s attributes %r vs %r" % (
+                        name, gp["attrs"], wp.get("attrs", {})))
             else:
                 if gp["widths"] != wp["widths"]:
                     raise Violation("C06.primitive", "inferred_widths", "%s: %r vs %r" % (name, gp["widths"], wp["widths"]))
